@@ -249,8 +249,11 @@ Fixpoint gor (part_id track_id : Z) (cmap : list (Z * option nat)) (ign_a : bool
                  rc_hidden := (rc_hidden c ++ [name])%list;
                  rc_inv_instr := (match pc_instr d with Some c' => if Nat.eqb c' ci then S (rc_inv_instr c) else rc_inv_instr c | None => rc_inv_instr c end);
                  rc_inv_att := (match pc_instr d with Some c' => if Nat.eqb c' ci then rc_inv_att c else S (rc_inv_att c) | None => S (rc_inv_att c) end) |}) dflt_c in
+          (* an ignored instructor of his own course counts only if he has (valid) choices (fix 2b07851: instructor-only participants are
+             not rated, like the optimised ones) *)
           let q' := match pc_instr d with
-                    | Some c' => if Nat.eqb c' ci then (S (fst q), snd q) else (fst q, (snd q ++ [assigned_penalty ci (pc_choices d) _td])%list)
+                    | Some c' => if Nat.eqb c' ci then (match pc_choices d with [] => q | _ => (S (fst q), snd q) end)
+                                 else (fst q, (snd q ++ [assigned_penalty ci (pc_choices d) _td])%list)
                     | None => (fst q, (snd q ++ [assigned_penalty ci (pc_choices d) _td])%list) end in
           gor part_id track_id cmap ign_a _td t i courses' acc q' (S nign)
       | None =>
